@@ -450,3 +450,43 @@ def normuse(pid):
         res.floor("uses of the normaliser", n, ctx.table("floors").get("normuse_sites", 0))
         return res
     return run
+
+
+def oneorder(pid):
+    """R-ONEORDER: there is one ordering of sibling names, compare_names, and every walk of a sibling tree - lookup,
+    insertion, removal, validation - branches on ITS result.  A second comparison routine for one of them (a cached
+    key, a fast path) has to agree with compare_names on every pair of names, which nothing here can establish; where
+    it does not, lookup walks away from an entry that insertion put there."""
+    def run(ctx):
+        from prov import Prov, guards as _guards, expand_var
+        res = RuleResult("R-ONEORDER(%s)" % pid, "every switch on an Ordering in the directory's tree walks tests the result of path::compare_names (or a comparison of integers)")
+        n = 0
+        for f in ctx.fx.fns.values():
+            if not f.path.startswith("internal::directory::"):
+                continue
+            g = _guards(ctx, f)
+            pr = g.prov
+            seen = set()
+            for bb, blk in enumerate(f.blocks):
+                if blk["cleanup"] or blk["term"]["t"] != "switch":
+                    continue
+                t = blk["term"]
+                vals = [str(x) for x, _ in t["arms"]] + ["otherwise"]
+                for a in g.describe_all(bb, vals[0], vals):
+                    m = re.match(r"^(.*) is (?:not )?(Less|Equal|Greater)$", a)
+                    if not m or (f.path, m.group(1)) in seen:
+                        continue
+                    seen.add((f.path, m.group(1)))
+                    n += 1
+                    from prov import _split_alts
+                    alts = []
+                    for x in expand_var(f, m.group(1), pr):
+                        alts += _split_alts(x[4:-1]) if x.startswith("phi(") and x.endswith(")") else [x]
+                    bad = [x for x in alts if not re.search(r"^(?:\w+::)*path::compare_names\(|^(const:)?(\w+::)*Ordering::(Less|Equal|Greater)(\(\))?$|^[<\w: ]*Ord for [ui](8|16|32|64|128|size)>::(partial_)?cmp\(", x)]
+                    if bad:
+                        res.fail(Finding(res.rule, "R-ONEORDER/%s/%s" % (f.path, re.sub(r"\(.*", "", bad[0])[:60]), "%s branches on an ordering computed by %s, not by compare_names: lookup, insertion, removal and validation must all order sibling names the same way" % (f.path.split("::")[-1], bad[0][:100]), f, t["span"]))
+                    else:
+                        res.ok({"function": f.path, "line": t["span"]["line"], "ordering": m.group(1)[:60]}, nontrivial=True)
+        res.floor("ordering switches in the directory", n, ctx.table("floors").get("oneorder_sites", 0))
+        return res
+    return run
